@@ -561,6 +561,9 @@ pub fn run(tier: Tier, seed: u64) -> i32 {
                 (bin(BinOp::Add, ite(name("p"), lit(1), div0()), ite(name("q"), div0(), lit(2))), [1, 0, 0, 0]),
                 (ite(name("p"), lit(4), lit(5)), [-1, 0, 0, 0]),
                 (ite(name("p"), lit(4), lit(5)), [i64::MIN, 0, 0, 0]),
+                // the condition is evaluated also when both branches are the same expression
+                (ite(bin(BinOp::Div, lit(1), name("p")), name("q"), name("q")), [1, 42, 0, 0]),
+                (ite(name("p"), bin(BinOp::Add, name("q"), lit(1)), bin(BinOp::Add, name("q"), lit(1))), [0, 42, 0, 0]),
             ];
             st.witness_n("ite_with_failing_or_drawing_unselected_branch", cases.len() as u64);
             st.nontrivial += cases.len() as u64;
@@ -580,6 +583,27 @@ pub fn run(tier: Tier, seed: u64) -> i32 {
                 }
             }
             batch(st, 3 << 32, &exprs, &vv, "part 3: ite evaluates only the selected branch");
+            // a condition that cannot be evaluated makes the row an error item, whatever the branches are
+            let failing: Vec<(Expr, [i64; 4])> = vec![
+                (ite(div0(), lit(5), lit(5)), [0, 0, 0, 0]),
+                (ite(bin(BinOp::Div, lit(1), name("p")), name("q"), name("q")), [0, 42, 0, 0]),
+                (ite(bin(BinOp::Rem, name("q"), name("p")), lit(1), lit(2)), [0, 42, 0, 0]),
+                (ite(ite(name("p"), div0(), lit(1)), lit(3), lit(3)), [1, 0, 0, 0]),
+            ];
+            for (k, (e, v)) in failing.iter().enumerate() {
+                let prog = Program { header: vec!["A".into(), "V".into(), "O".into()], body: vec![Stmt::Declare("V".into(), lit(0)), Stmt::Row(vec![Entry::Lit(0, Radix::Dec), Entry::Paren(e.clone()), Entry::X])] };
+                let text = text(&prog);
+                let script = vec![Step::Ans(answer(v)), Step::Ans(answer(v))];
+                let opts = RunOpts::new(2);
+                let obs = run_dynamic(&text, &sigs, true, &script, &opts);
+                st.evals += 1;
+                st.nontrivial += 1;
+                st.witness("ite_whose_condition_cannot_be_evaluated");
+                if !matches!(obs.items.first(), Some(ObsItem::Runtime(_))) {
+                    let m = format!("item 0: ite: the condition divides by zero, the row must be an error item; got {}", obs.items.first().map(|i| i.brief()).unwrap_or("nothing".into()));
+                    st.violation("ite with a failing condition yields a value", (3 << 32) + 16 + k as u64, format!("expression: {}\n{m}", expr_text(e)), || dyn_replay(&text, &sigs, true, &script, &opts, vec!["an error item".into()], &obs, &m));
+                }
+            }
         } else {
             let mut exprs = vec![];
             // incl. values whose hex / binary spelling starts with a letter that is also a radix marker
@@ -606,7 +630,7 @@ pub fn run(tier: Tier, seed: u64) -> i32 {
             "reference evaluator refsem::binop/unop/climb is the oracle (i64 wrapping, shift count & 63, truncating division, MIN/-1 = MIN, MIN%-1 = 0)".into(),
             "valuations are a fixed set of 12 (4 for the unary-prefixed chains in the quick tier) chosen so that different trees give different values; values outside the boundary sets are not enumerated (DESIGN section 10)".into(),
         ],
-        required_witnesses: vec!["very_long_expression", "expression_after_12000_rows_that_could_not_be_evaluated", "operands_glued_to_operators_next_to_signals_spelt_alike", "operand_written_as_a_function_call", "ite_over_a_floating_or_unknown_device_output", "flat_chain", "unary_prefixed_operand", "explicit_tree", "operator_table_entry", "MIN_op_minus_one", "shift_count_outside_0_63", "ite_with_failing_or_drawing_unselected_branch", "literal_radix_form"],
+        required_witnesses: vec!["very_long_expression", "expression_after_12000_rows_that_could_not_be_evaluated", "operands_glued_to_operators_next_to_signals_spelt_alike", "operand_written_as_a_function_call", "ite_over_a_floating_or_unknown_device_output", "flat_chain", "unary_prefixed_operand", "explicit_tree", "operator_table_entry", "MIN_op_minus_one", "shift_count_outside_0_63", "ite_with_failing_or_drawing_unselected_branch", "ite_whose_condition_cannot_be_evaluated", "literal_radix_form"],
         exhaustive_note: "all operator triples, shapes, prefixes and operand pairs listed".into(),
         e1: false,
     };
